@@ -1827,26 +1827,27 @@ impl<K: AsRef<Key>> ServerError<K> {
         let mut builder = builder.additional();
         match self.0 {
             ServerErrorInner::Unsigned { error } => {
-                let tsig = {
-                    MessageTsig::from_message(msg)
-                        .expect("missing or malformed TSIG record")
-                };
-                builder.push((
-                    tsig.record.owner(),
-                    tsig.record.class(),
-                    tsig.record.ttl(),
-                    // The TSIG record data can never ever be too long.
-                    Tsig::new(
-                        tsig.record.data().algorithm(),
-                        tsig.record.data().time_signed(),
-                        tsig.record.data().fudge(),
-                        b"",
-                        msg.header().id(),
-                        error,
-                        b"",
-                    )
-                    .expect("long record data"),
-                ))?;
+                // If the request's TSIG record is misplaced, duplicated or
+                // malformed (which is what this error reports), there is no
+                // record to mirror: the error goes out without one.
+                if let Ok(tsig) = MessageTsig::from_message(msg) {
+                    builder.push((
+                        tsig.record.owner(),
+                        tsig.record.class(),
+                        tsig.record.ttl(),
+                        // The TSIG record data can never ever be too long.
+                        Tsig::new(
+                            tsig.record.data().algorithm(),
+                            tsig.record.data().time_signed(),
+                            tsig.record.data().fudge(),
+                            b"",
+                            msg.header().id(),
+                            error,
+                            b"",
+                        )
+                        .expect("long record data"),
+                    ))?;
+                }
             }
             ServerErrorInner::Signed { context, variables } => {
                 let (mac, key) = context.final_answer(
